@@ -84,6 +84,13 @@ def items(tier, seed):
         name = fam + "-" + "-".join(f"{k}{v}" for k, v in kw.items())
         out.append(dict(name=name, fam=fam, seed=seed, tier=tier, **kw))
 
+    # train_a2c end to end: which observation bootstraps the last step of each rollout
+    from vlib import senv as _senv
+
+    vs = _senv.scripts(4, "cTU", 1 if q else 2)
+    pairs = [[a, b] for a in vs for b in vs]
+    for i in range(0, len(pairs), 27 if q else 40):
+        out.append(dict(name=f"a2cloop-{i}", fam="a2cloop", seed=seed, tier=tier, pairs=pairs[i : i + (27 if q else 40)]))
     # reward-to-go (numpy, float64)
     for g in ([0.0, 0.5, 0.9, 1.0] if q else [0.0, 0.5, 0.9, 0.99, 1.0]):
         add("rtg", gamma=g, Lmax=5 if q else 6)
@@ -1089,13 +1096,74 @@ class Enc(SampleBatch):
             loss, dyn, rew, done = self.fn(self.state, self.bins, batch, bool(self.item["envterm"]))
         except Exception as e:  # noqa: BLE001
             raise Rejected(f"{type(e).__name__}: {e}") from e
+        # relevance: the learning signal ignores what comes AFTER the first terminated step - the terminated step
+        # itself (and everything before it) is part of the sub-trajectory and must count: changing the reward of
+        # the first terminated step of a sample must change the reward term
+        for i in range(N):
+            ks = [t for t in range(H) if te[i, t]]
+            if not ks:
+                continue
+            k = ks[0]
+            r2 = r.copy()
+            r2[i, k] += 1.0
+            _, _, rew2, _ = self.fn(self.state, self.bins, self.Batch(self.obs, act, r2, nobs, te, np.zeros((N, H), dtype=np.int32)), bool(self.item["envterm"]))
+            self.col.tick(1)
+            self.col.outcome("enc_first_terminated_steps_probed_for_relevance")
+            if float(rew2) == float(rew):
+                self.col.violation(SIG.format(self.entry + "[reward_loss]", "ignores-data-of-the-first-terminated-step"), dict(context=self.describe(ctx), sample=i, step=k))
+            break
         return {(-1, 0): (float(loss), float(dyn), float(rew), float(done))}
 
 
 FAMILIES = dict(rtg=Rtg, pgd=Pgd, nstep=NStep, gae=Gae, a2c=A2c, ppo=Ppo, mrq=Mrq, enc=Enc)
 
 
+def work_a2cloop(item, col):
+    """train_a2c end to end on scripted vector environments: the observation handed to prepare_a2c_batch for
+    bootstrapping the last step of a rollout must be the observation the environments returned at that step."""
+    import contextlib
+    import io
+
+    import gymnasium as gym
+
+    from checks.c01 import make_vec, pg_state
+    from rl_blox.algorithm import a2c
+
+    entry = "a2c.train_a2c"
+    for pair in item["pairs"]:
+        for spu in (2, 3):
+            envs = make_vec([p * 5 for p in pair], False, gym.vector.AutoresetMode.NEXT_STEP, 30)
+            st = pg_state(envs.envs[0], False, item["seed"])
+            captured = []
+            real = a2c.prepare_a2c_batch
+
+            def wrap(rb, vf, last_obs, *a, **k):
+                captured.append((np.array(last_obs), sum(1 for e in envs.vlog if e[0] == "step")))
+                return real(rb, vf, last_obs, *a, **k)
+
+            a2c.prepare_a2c_batch = wrap
+            try:
+                with contextlib.redirect_stdout(io.StringIO()):
+                    a2c.train_a2c(envs, st.policy, st.policy_optimizer, st.value_function, st.value_function_optimizer, seed=1,
+                                  total_timesteps=3 * spu * 2, steps_per_update=spu, log_frequency=None, progress_bar=False)
+            finally:
+                a2c.prepare_a2c_batch = real
+            steps = [e for e in envs.vlog if e[0] == "step"]
+            for r, (lo, n) in enumerate(captured):
+                col.tick(1, ("a2cloop", tuple(pair), spu, r))
+                col.outcome("a2c_rollouts_checked_for_bootstrap_observation")
+                want = steps[n - 1][2]
+                if lo.shape != want.shape or not np.array_equal(lo, want):
+                    col.violation(SIG.format(entry, "bootstrap-observation-not-the-last-observation-of-the-rollout"),
+                                  dict(scripts=pair, steps_per_update=spu, rollout=r, got=lo.tolist(), expected=want.tolist()))
+                    break
+            envs.close()
+    col.sample(dict(fam="a2cloop", pairs=item["pairs"][:2]))
+
+
 def work(item, col):
+    if item["fam"] == "a2cloop":
+        return work_a2cloop(item, col)
     fam = FAMILIES[item["fam"]](item)
     fam.col = col
     if hasattr(fam, "setup"):
